@@ -99,6 +99,11 @@ pub trait Scheme: Sized + Send + Sync + 'static {
     fn random_like(info: &KeyInfo, like: &Self::P, seed: u64) -> Self::P;
     fn is_zero_poly(p: &Self::P) -> bool;
     fn point_json(p: &Self::Pt) -> Value;
+    /// Code-based schemes only: log2 of the probability that a proof made under one transcript state has
+    /// the Fiat-Shamir column positions another state dictates (n_ext^-t for the first opened polynomial).
+    fn transcript_collision_log2(_keys: &Keys<Self>, _first: &ark_poly_commit::LabeledCommitment<Comm<Self>>) -> Option<f64> {
+        None
+    }
     fn proof_bytes(p: &Proof<Self>, compress: bool) -> Vec<u8>;
     fn proof_from_bytes(b: &[u8], compress: bool, validate: bool) -> Result<Proof<Self>, String>;
     /// Code-based schemes only: log2 of the probability (over the Fiat-Shamir column indices) that an
@@ -745,6 +750,9 @@ impl Scheme for MLigero {
     ) -> Option<f64> {
         crate::lincode::moved_point_pass_log2::<Self>(keys, polys, proof, z_new)
     }
+    fn transcript_collision_log2(keys: &Keys<Self>, first: &ark_poly_commit::LabeledCommitment<Comm<Self>>) -> Option<f64> {
+        crate::lincode::transcript_collision_log2::<Self>(keys, first)
+    }
 }
 
 pub struct Brakedown;
@@ -799,6 +807,9 @@ impl Scheme for Brakedown {
         z_new: &Self::Pt,
     ) -> Option<f64> {
         crate::lincode::moved_point_pass_log2::<Self>(keys, polys, proof, z_new)
+    }
+    fn transcript_collision_log2(keys: &Keys<Self>, first: &ark_poly_commit::LabeledCommitment<Comm<Self>>) -> Option<f64> {
+        crate::lincode::transcript_collision_log2::<Self>(keys, first)
     }
 }
 
@@ -862,6 +873,9 @@ impl Scheme for ULigero {
         z_new: &Self::Pt,
     ) -> Option<f64> {
         crate::lincode::moved_point_pass_log2::<Self>(keys, polys, proof, z_new)
+    }
+    fn transcript_collision_log2(keys: &Keys<Self>, first: &ark_poly_commit::LabeledCommitment<Comm<Self>>) -> Option<f64> {
+        crate::lincode::transcript_collision_log2::<Self>(keys, first)
     }
 }
 
